@@ -20,21 +20,24 @@ def unescape_tla_string(s):
     return s.replace('\\"', '"').replace("\\\\", "\\")
 
 
-def write_mc(workdir, name, cfg, invariants=(), extra_defs="", keep_obs=True, extends=("Callbag",),
+def write_mc(workdir, name, cfgs, invariants=(), extra_defs="", keep_obs=True, extends=("Callbag",),
              print_beh=True, constraint=None):
+    """cfgs: one scenario cfg or a list of them (the model picks one per behaviour: variable ci)"""
+    if isinstance(cfgs, dict):
+        cfgs = [cfgs]
     os.makedirs(workdir, exist_ok=True)
     for f in os.listdir(SPEC_DIR):
         if f.endswith(".tla"):
             shutil.copy(os.path.join(SPEC_DIR, f), os.path.join(workdir, f))
     mod = [f"---- MODULE {name} ----", "EXTENDS " + ", ".join(extends) + ", Json", "",
-           "CFGv == " + tla(cfg), ""]
+           "CFGSv == <<" + ",\n  ".join(tla(c) for c in cfgs) + ">>", ""]
     if print_beh:
-        mod.append('PrintBeh == Finished => PrintT(<<"BEH", ToJson([script |-> script, obs |-> obs])>>)')
+        mod.append('PrintBeh == Finished => PrintT(<<"BEH", ToJson([ci |-> ci, script |-> script, obs |-> obs])>>)')
     mod.append(extra_defs)
     mod.append("====")
     with open(os.path.join(workdir, name + ".tla"), "w") as f:
         f.write("\n".join(mod) + "\n")
-    c = ["SPECIFICATION Spec", "CONSTANTS", "  CFG <- CFGv", f"  KeepObs = {'TRUE' if keep_obs else 'FALSE'}",
+    c = ["SPECIFICATION Spec", "CONSTANTS", "  CFGS <- CFGSv", f"  KeepObs = {'TRUE' if keep_obs else 'FALSE'}",
          "  defaultInitValue = defaultInitValue", "CHECK_DEADLOCK FALSE"]
     if print_beh:
         c.append("INVARIANT PrintBeh")
